@@ -16,12 +16,24 @@ oracle:         (independent of the model; c18gen.visible reads the DESCRIPTION 
                 run occurs completely and in document order (note bodies may move to the end); text:s/tab/line-break still
                 separate their neighbours and the number of non-breaking spaces equals the sum of text:c; the sequence of
                 element names of the output equals that of the same document with all adversarial strings neutralised
+containers:     block-level containers are part of the vocabulary: draw:frame (text box / image) and drawing shapes with
+                paragraphs as CHILDREN of office:text, sections, cells, text boxes, note bodies and pages; text:table-of-content
+                and the other six indexes (index title + body); text:numbered-paragraph.  The visible text inside them is
+                demanded like any other.  The losses the unchanged converters show there have signatures of their own
+                (c18gen.M_LOST, X_LOST) and are PENDING (counted, see PENDING below) until the integrator has decided.
 """
 import os, io, json, shutil, tempfile, time, re, xml.parsers.expat
 from common import enc_str, dec_str
 import c18gen
 
 UNIQ = re.compile(u'k[0-9]+z')
+
+# Losses of visible text that the UNCHANGED converters show on the block-level containers (frames / shapes that are children
+# of office:text, indexes, numbered paragraphs; paragraph text in front of a drawing shape) - found by the follow-up of
+# round 6, reported to the integrator, not yet decided (fix: commit or known finding).  Until then a failure with one of
+# these signatures is COUNTED (evidence: pending_<signature>) and does not fail the run; every other signature does.
+# Remove a signature here once /repo is repaired or the finding is registered in known-findings/C18.txt.
+PENDING = set(c18gen.M_LOST) | set(c18gen.X_LOST)
 
 
 # ---------------------------------------------------------------- reading the converters' output (expat only)
@@ -130,6 +142,42 @@ def match_runs(out, main, notes, skip, target):
         else:
             prev = None; seps = []
     return problems
+
+
+def attribute(out, main, notes, target, lost, former):
+    """NAME the failures of a document whose runs are not all found in order: [(signature, run)] and the problem list of
+       the matching that leaves the runs of all known classes out (its 'gap' entries are reported by the caller).
+       `lost`: classes of block-level containers a converter may lose as a whole (c18gen.M_LOST / X_LOST); `former`: classes of
+       repaired findings.  A run that is missing although the classes are left out is `<target>-text-missing`.  Otherwise
+       the loss belongs to a class: that of the missing runs that carry a flag - or, when the greedy matching found a lost
+       flagged run in a LATER occurrence of the same string and so ran past unflagged ones, that of the flagged runs of
+       the document.  The `lost` classes are tried first: what remains missing when only they are left out is `former`."""
+    miss = lambda ps: [p for p in ps if p[0] == 'missing']
+    named = []
+    probs2 = match_runs(out, main, notes, set(lost) | set(former), target)
+    if miss(probs2):
+        return [(target + '-text-missing', miss(probs2)[0][1])], probs2
+    docflags = set()
+    for ev in list(main) + [e for nb in notes for e in nb]:
+        if ev[0] == 'r':
+            docflags |= set(ev[3])
+
+    def name(ps, classes):
+        seen = []
+        for p in ps:
+            fl = [f for f in classes if f in p[2]]
+            if fl and fl[0] not in seen:
+                seen.append(fl[0]); named.append((fl[0], p[1]))
+        if ps and not seen:
+            fl = [f for f in classes if f in docflags]
+            named.append((fl[0] if fl else target + '-text-missing', ps[0][1]))
+    miss1 = miss(match_runs(out, main, notes, set(), target))
+    miss3 = miss(match_runs(out, main, notes, set(lost), target)) if (docflags & set(lost)) else miss1
+    if miss3:
+        name(miss3, list(former))
+    if miss1 and (docflags & set(lost)) and (not miss3 or any(set(p[2]) & set(lost) for p in miss1)):
+        name([p for p in miss1 if set(p[2]) & set(lost)] or miss1, list(lost))
+    return named, probs2
 
 
 # ---------------------------------------------------------------- correspondence: inputs of the model, views of the output
@@ -361,12 +409,9 @@ def oracle(spec, res, neutral_res):
         out = body_text(ev)
         probs = match_runs(out, main, notes, set(), 'x')
         if probs:
-            probs2 = match_runs(out, main, notes, set(['x-pending-before-textbox']), 'x')
-            miss2 = [p for p in probs2 if p[0] == 'missing']
-            if miss2:
-                fails.append(('x-text-missing', '%s: run %r not found in order' % (tag, miss2[0][1])))
-            elif [p for p in probs if p[0] == 'missing']:
-                fails.append(('x-pending-before-textbox', '%s: run %r lost' % (tag, [p for p in probs if p[0] == 'missing'][0][1])))
+            named, probs2 = attribute(out, main, notes, 'x', c18gen.X_LOST, ('x-pending-before-textbox',))
+            for sig, run in named:
+                fails.append((sig, '%s: run %r %s' % (tag, run, 'not found in order' if sig == 'x-text-missing' else 'lost')))
             for p in probs2:
                 if p[0] == 'gap':
                     if p[1] and all(s[1] == 's' and s[3] for s in p[1]):
@@ -388,18 +433,9 @@ def oracle(spec, res, neutral_res):
             out = r[1]
             probs = match_runs(out, main, notes, set(), 'm')
             if probs:
-                known = set(['m-note-tail', 'm-nested-table', 'm-nested-section'])
-                probs2 = match_runs(out, main, notes, known, 'm')   # classes of former findings: only used to NAME a failure
-                miss2 = [p for p in probs2 if p[0] == 'missing']
-                if miss2:
-                    fails.append(('m-text-missing', 'run %r not found in order' % (miss2[0][1],)))
-                else:
-                    seen = set()
-                    for p in probs:
-                        if p[0] == 'missing':
-                            fl = [f for f in p[2] if f in known]
-                            if fl and fl[0] not in seen:
-                                seen.add(fl[0]); fails.append((fl[0], 'run %r lost' % (p[1],)))
+                named, probs2 = attribute(out, main, notes, 'm', c18gen.M_LOST, ('m-nested-section', 'm-nested-table', 'm-note-tail'))
+                for sig, run in named:
+                    fails.append((sig, 'run %r %s' % (run, 'not found in order' if sig == 'm-text-missing' else 'lost')))
                 for p in probs2:
                     if p[0] == 'gap':
                         if p[1] and all(s[4] for s in p[1]):
@@ -434,7 +470,9 @@ def check_own(spec, wd, pretty_moin=False):
 
 def run(chk, replay=None):
     chk.rule = ('seeded documents over the supported vocabulary (p, h with/without level, span, a, nested lists, tables with spans, '
-                'frames with text boxes / images, notes, s/tab/line-break, bookmarks, sections, dc/meta), depth <= 5, as text, spreadsheet '
+                'frames with text boxes / images, notes, s/tab/line-break, bookmarks, sections, dc/meta; block-level containers: frames / '
+                'drawing shapes as children of office:text, sections, cells, text boxes, note bodies; tables of content and the other '
+                'indexes with index title; numbered paragraphs), depth <= 5, as text, spreadsheet '
                 'and presentation documents, adversarial strings in text, metadata, link targets, style and bookmark names; each SAVED '
                 'with odfpy and converted from the file; non-trivial = document with at least one adversarial string and one nested element')
     wd = Workdir()
@@ -449,9 +487,9 @@ def run(chk, replay=None):
                 resb, failsb = check_own(spec, wd, pm)
                 fails = fails + failsb
             known = set(k['sig'] for k in chk.known)
-            bad = [f for f in fails if f[0] not in known or f[0] == replay.get('signature')]
+            bad = [f for f in fails if (f[0] not in known and f[0] not in PENDING) or f[0] == replay.get('signature')]
             for f in fails:
-                print('replay: %s %s: %s' % ('KNOWN' if f[0] in known else 'FAIL', f[0], f[1]))
+                print('replay: %s %s: %s' % ('KNOWN' if f[0] in known else 'PENDING' if f[0] in PENDING else 'FAIL', f[0], f[1]))
             return 1 if bad else 0
         return run_main(chk, wd)
     finally:
@@ -554,6 +592,16 @@ def run_main(chk, wd):
     for spec, g in gen_specs(chk):
         specs.append((spec, g, None))
     pending = []
+    pending_seen = {}
+
+    def report(sig, case, detail, name=None):
+        """a failure of the oracle: a violation, unless its class is one of the PENDING ones (counted, first witness noted)"""
+        if sig in PENDING:
+            chk.count('pending_' + sig)
+            if sig not in pending_seen or (name is not None and pending_seen[sig][0] is None):
+                pending_seen[sig] = (name, detail)
+            return 'pending'
+        return chk.fail(sig, case, detail)
     for ndoc, (spec, g, name) in enumerate(specs):
         res, nres, fails = check_spec(spec, wd)
         blob = json.dumps(spec, sort_keys=True)
@@ -569,7 +617,7 @@ def run_main(chk, wd):
             if k in res:
                 chk.count('conv_%s_%s' % (k, res[k][0]))
         for sig, detail in fails:
-            chk.fail(sig, {'spec': spec}, detail)
+            report(sig, {'spec': spec}, detail, name)
         routes = ((spec, res),) + (((c18gen.neutral(spec), nres),) if (nres is not res and 'path' in nres) else ())
         # route B: every third document (and the whole corpus) also goes through the harness's own serialiser
         if g is None or ndoc % 3 == 0:
@@ -577,13 +625,15 @@ def run_main(chk, wd):
             resb, failsb = check_own(spec, wd, pm)
             chk.count('own_serialiser_docs'); chk.count('own_serialiser_moin_indented', 1 if pm else 0)
             for sig, detail in failsb:
-                chk.fail(sig, {'spec': spec, 'route': 'own-serialiser'}, detail)
+                report(sig, {'spec': spec, 'route': 'own-serialiser'}, detail, name)
             routes = routes + ((spec, resb),)
         # 3 correspondence requests (the adversarial document, its neutralised twin, the own-serialiser package)
         for sp, r in routes:
             for key, line in corr_lines(r, default_styles):
                 pending.append((sp, r, key, line))
     chk.notes.append('oracle phase %.1fs' % (time.time() - t0))
+    for sig in sorted(pending_seen):
+        chk.notes.append('PENDING finding %s (not failing the run): corpus document %r: %s' % (sig, pending_seen[sig][0], pending_seen[sig][1][:160]))
 
     def deep_search():
         """a proof or the correspondence broke and the oracle saw nothing yet: look at more documents (oracle only)"""
@@ -593,7 +643,7 @@ def run_main(chk, wd):
             res, nres, fails = check_spec(spec, wd)
             chk.count('deep_search_docs')
             for sig, detail in fails:
-                if chk.fail(sig, {'spec': spec}, detail) == 'violation':
+                if report(sig, {'spec': spec}, detail) == 'violation':
                     return
     chk.deep_search = deep_search
     t0 = time.time()
@@ -644,4 +694,25 @@ CORPUS = [
     ('footnote', D([P(T(u'see'), ['note', 'footnote', u'1', [P(T(u'k2z'))]])])),
     ('empty-href', D([P(['a', u'', [T(u'k1z')]])])),
     ('meta-markup', D([P(T(u'x'))], meta={'title': u'T<&>', 'creator': u'A "q" <b>', 'language': u'e"n\'', 'userdef': [[u'n<', u'v&']]})),
+    # block-level containers: a frame with a text box as a CHILD of a section, a cell, a text box, a note body (converted by
+    # both converters) ...
+    ('block-frame-in-section-cell-box-note', D([
+        ['section', u's1', [P(T(u'k1z')), ['frame', 'paragraph', None, ['textbox', [P(T(u'k2z')), ['frame', None, None, ['textbox', [P(T(u'k3z'))]]]]]], P(T(u'k4z'))]],
+        ['table', u't', None, [[None, None]], [[None, [['cell', {'rs': None, 'cs': None, 'style': None},
+            [P(T(u'k5z')), ['frame', 'page', None, ['both', [P(T(u'k6z'))]]], P(T(u'k7z'))]]]]], 0],
+        P(T(u'k8z'), ['note', 'footnote', u'1', [P(T(u'k9z')), ['frame', 'char', None, ['textbox', [P(T(u'k10z'))]]], P(T(u'k11z'))]])])),
+    ('block-frame-in-sheet-cell', D([['table', u't', None, [[None, None]], [[None, [['cell', {'rs': None, 'cs': None, 'style': None},
+        [P(T(u'k1z')), ['frame', None, None, ['textbox', [P(T(u'k2z'))]]], P(T(u'k3z'))]]]]], 0]], kind='sheet')),
+    # ... and the minimal witnesses of the PENDING classes (each loses k2z, or k1z in front of the shape)
+    ('moin-top-frame', D([P(T(u'k1z')), ['frame', 'page', None, ['textbox', [P(T(u'k2z'))]]], P(T(u'k3z'))])),
+    ('moin-top-shape', D([P(T(u'k1z')), ['shape', 'rect', 'page', None, [P(T(u'k2z'))]], P(T(u'k3z'))])),
+    ('shape-in-paragraph', D([P(T(u'k1z'), ['shape', 'ellipse', 'char', None, [P(T(u'k2z'))]], T(u'k3z'))])),
+    ('custom-shape-in-paragraph', D([P(T(u'k1z'), ['shape', 'custom', 'as-char', u'gr.1', [P(T(u'k2z'))]], T(u'k3z'))])),
+    ('moin-top-index', D([P(T(u'k1z')), ['index', 'toc', u'Toc1', [P(T(u'k2z'))], [P(T(u'k3z'))]], P(T(u'k4z'))])),
+    ('moin-index-in-section', D([['section', u's1', [P(T(u'k1z')), ['index', 'alpha', u'Ix', None, [P(T(u'k2z'))]], P(T(u'k3z'))]]])),
+    ('moin-top-numbered-paragraph', D([P(T(u'k1z')), ['numpar', u'L1', None, P(T(u'k2z'))], P(T(u'k3z'))])),
+    ('moin-numbered-paragraph-in-cell', D([['table', u't', None, [[None, None]], [[None, [['cell', {'rs': None, 'cs': None, 'style': None},
+        [P(T(u'k1z')), ['numpar', u'L1', 2, ['h', 2, None, [T(u'k2z')]]], P(T(u'k3z'))]]]]], 0]])),
+    ('shapes-on-a-page', D([['page', u'pg', [['shape', 'custom', None, None, [P(T(u'k1z'))]], ['frame', None, None, ['textbox', [P(T(u'k2z'))]]],
+                                              ['shape', 'rect', None, None, [P(T(u'k3z'))]]]]], kind='pres')),
 ]
